@@ -116,6 +116,7 @@ def run(repo, rep, tier):
     factories_agree(repo, rep)
     keys_as_stored(repo, rep)
     readers_answer_from_tables(repo, rep)
+    table_searches_are_exhaustive(repo, rep)
     # ---- R3 ---------------------------------------------------------------
     mod = repo.module(VM)
     for f in mod.all_funcs():
@@ -1156,3 +1157,122 @@ def readers_answer_from_tables(repo, rep):
                         'reconciled copies: entries added from '
                         'values_default are missing and cut-off Values '
                         'strings are still there')
+
+
+def table_searches_are_exhaustive(repo, rep):
+    """C20.R12: the tables are filled in the order of the ValueMap array,
+    which DSP0004 leaves free (ranges may be listed in any order, may
+    overlap).  A lookup that walks a table therefore ends only by returning
+    (or recording) the entry that matched, or by running out of entries: a
+    `break` taken for an entry that did *not* match (`if v < lo: break` -
+    'the rest cannot match either') silently assumes an ascending table,
+    and values inside a range listed later are no longer claimed."""
+    r12 = rep.rule('C20.R12', 'loops over the translation tables end only '
+                   'on a match or at the end of the table')
+    vm = repo.cls(VM, 'ValueMapping')
+    roots = [n for n in ('tovalues', 'tobinary', 'items') if
+             n in vm.methods]
+    todo, seen = list(roots), []
+    while todo:
+        n = todo.pop()
+        if n in seen:
+            continue
+        seen.append(n)
+        for x in ast.walk(vm.methods[n].node):
+            if isinstance(x, ast.Attribute) and \
+                    isinstance(x.value, ast.Name) and \
+                    x.value.id in ('self', 'cls') and \
+                    x.attr in vm.methods and x.attr != '_create_for_element':
+                todo.append(x.attr)
+    nloops = 0
+    for n in sorted(seen):
+        f = vm.methods[n]
+        alias = {a.targets[0].id for a in walk_no_nested(f.node)
+                 if isinstance(a, ast.Assign) and len(a.targets) == 1 and
+                 isinstance(a.targets[0], ast.Name) and
+                 isinstance(a.value, ast.Attribute) and
+                 a.value.attr.startswith(('_b2v', '_v2b'))}
+        for lp in walk_no_nested(f.node):
+            if not isinstance(lp, ast.For):
+                continue
+            over = [x for x in ast.walk(lp.iter) if
+                    (isinstance(x, ast.Attribute) and
+                     x.attr.startswith(('_b2v', '_v2b'))) or
+                    (isinstance(x, ast.Name) and x.id in alias)]
+            if not over:
+                continue
+            nloops += 1
+            r12.sites += 1
+            r12.functions.add(f.fq)
+            tnames = {x.id for x in ast.walk(lp.target)
+                      if isinstance(x, ast.Name)}
+            # names taken from the entry inside the body (unpacking)
+            grew = True
+            while grew:
+                grew = False
+                for a in ast.walk(lp):
+                    if isinstance(a, ast.Assign) and \
+                            {x.id for x in ast.walk(a.value)
+                             if isinstance(x, ast.Name)} & tnames:
+                        for t in a.targets:
+                            for x in ast.walk(t):
+                                if isinstance(x, ast.Name) and \
+                                        x.id not in tnames:
+                                    tnames.add(x.id)
+                                    grew = True
+            inside = {id(x) for x in ast.walk(lp)}
+            read_outside = {x.id for x in ast.walk(f.node)
+                            if isinstance(x, ast.Name) and
+                            isinstance(x.ctx, ast.Load) and
+                            id(x) not in inside}
+
+            def breaks(stmts, recorded):
+                """Break statements (of this loop) with whether a match was
+                recorded in the statements that lead to them"""
+                out = []
+                rec = recorded
+                for st in stmts:
+                    if isinstance(st, ast.Break):
+                        out.append((st, rec))
+                    elif isinstance(st, ast.Assign):
+                        # something is put aside for the code after the
+                        # loop (a value of the entry, a found flag): the
+                        # entry matched
+                        tg = {x.id for t in st.targets for x in ast.walk(t)
+                              if isinstance(x, ast.Name)}
+                        if tg & read_outside:
+                            rec = True
+                    elif isinstance(st, (ast.For, ast.While)):
+                        # breaks inside belong to the inner loop
+                        out += breaks(st.orelse, rec)
+                    elif isinstance(st, ast.If):
+                        out += breaks(st.body, rec)
+                        out += breaks(st.orelse, rec)
+                    elif isinstance(st, ast.Try):
+                        out += breaks(st.body, rec)
+                        for h in st.handlers:
+                            out += breaks(h.body, rec)
+                        out += breaks(st.orelse, rec)
+                        out += breaks(st.finalbody, rec)
+                    elif isinstance(st, ast.With):
+                        out += breaks(st.body, rec)
+                return out
+            bs = breaks(lp.body, False)
+            bad = [b for b, rec in bs if not rec]
+            r12.ob(not bad, '%s|for %s in %s' % (f.qualname, norm(lp.target),
+                                                 norm(lp.iter, 40)),
+                   {'breaks': len(bs)})
+            for b in bad:
+                rep.finding(r12, f.qualname,
+                            'for %s in %s: ... break'
+                            % (norm(lp.target), norm(lp.iter, 40)),
+                            'search-cut-short', VM, b.lineno,
+                            'the walk over %s is left by a break although '
+                            'no entry was taken: entries listed later (the '
+                            'ValueMap order is free) are never looked at, so '
+                            'a value inside a later range is reported as '
+                            'unclaimed / raises ValueError'
+                            % norm(lp.iter, 40))
+    if nloops < 1:
+        raise AnalysisError('C20.R12: no loop over a translation table '
+                            'found in the lookup methods')
